@@ -289,6 +289,8 @@ fn c05(quick: bool) -> PropRun {
     for mut sp in crate::pool::lw_pool(quick) {
         let (mut env, _) = ideal(sp.cfg.latency, if quick { 3 } else { 5 });
         env.dev_start = sp.env.dev_start; env.max_rounds = sp.env.dev_start + env.dev_rounds + T_LIVE_ROUNDS; env.deltas = &[20, 0, 2000]; env.skip_choice = false; env.fair_delta = sp.env.fair_delta;
+        // (the pool's scripted losses belong to its fault menus: the ideal network loses nothing)
+        sp.cfg.kill = None;
         sp.env = env; sp.d = 1; sp.oracles = oracles; sp.tag = format!("C05.pool-ideal.{}", sp.tag);
         scs.push(lw_scenario(sp));
     }
